@@ -410,9 +410,14 @@ def _toposort(dsk, keys=None, returncycle=False, dependencies=None):
                         priorities = {}
                         prev = nodes[-1]
                         # Give priority to nodes that were seen earlier.
+                        # A node can sit on the stack more than once, so count the
+                        # pops instead of using ``len(priorities)``: priorities must
+                        # be distinct for the greedy walk below to terminate.
+                        npopped = 0
                         while nodes[-1] != nxt:
-                            priorities[nodes.pop()] = -len(priorities)
-                        priorities[nxt] = -len(priorities)
+                            priorities[nodes.pop()] = -npopped
+                            npopped += 1
+                        priorities[nxt] = -npopped
                         # We're going to get the cycle by walking backwards along dependents,
                         # so calculate dependents only for the nodes in play.
                         inplay = set(priorities)
